@@ -60,8 +60,10 @@ DoProcess(p) ==
 (* the old processor is cancelled before the fetch; a cancelled processor that is kept cannot save *)
 CancelledOld(p) == cur.f # "-" /\ cur.f # p.f /\ p.beh = "nofact"
 
-DoSave(f, avp) ==
-  IF avp.h <= prevSaved THEN /\ res' = "alreadysaved" /\ UNCHANGED <<prevSaved, wsaves>> /\ cur' = None   \* any error drops the processor
+(* pv = the value of previousSaved the height check is made against: the current one when the check *)
+(* is made under the lock (DoSave); BlockSaveLock.tla also describes a check made before the lock   *)
+DoSaveWith(pv, f, avp) ==
+  IF avp.h <= pv THEN /\ res' = "alreadysaved" /\ UNCHANGED <<prevSaved, wsaves>> /\ cur' = None   \* any error drops the processor
   ELSE IF cur.f = "-" \/ cur.f # f THEN /\ res' = "notprocessed" /\ UNCHANGED <<prevSaved, wsaves>> /\ cur' = None
   ELSE /\ prevSaved' = avp.h
        /\ cur' = None
@@ -70,6 +72,8 @@ DoSave(f, avp) ==
                THEN /\ wsaves' = Append(wsaves, [h |-> cur.h, m |-> Man(cur.f), f |-> cur.f, nb |-> avp.nb, sf |-> f])
                     /\ res' = "saved"
                ELSE res' = "notprocessed" /\ UNCHANGED wsaves                      \* "different manifest hash with majority"
+
+DoSave(f, avp) == DoSaveWith(prevSaved, f, avp)
 
 ProcessStep(p) == /\ IF CancelledOld(p) THEN cur' = [cur EXCEPT !.st = "failed"] /\ res' = "notprocessed"
                      ELSE DoProcess(p)
